@@ -882,7 +882,8 @@ def check_append(ctx, rule):
     f = Bc.find_method("append")
     if f is None or Bc.find_setter("data") is None or Bc.find_getter("data") is None or Bc.find_getter("data_len") is None:
         raise Undecided("Buffer lacks append / data / data_len")
-    ops = [("append", " <a"), ("append", "b> \n"), ("append", ""), ("set", "x"), ("set", ""), ("drop1", None)]
+    # pieces that are nothing but a line break or a blank are pieces like any other: where the stream is cut must not matter
+    ops = [("append", " <a"), ("append", "b> \n"), ("append", ""), ("append", "\n"), ("append", "\r\n"), ("append", " "), ("set", "x"), ("set", ""), ("drop1", None)]
     seqs = [s for k in (1, 2, 3) for s in _it.product(ops, repeat=k)]
     bad = None
     n = 0
